@@ -1,3 +1,5 @@
+import copy
+
 from typing import TYPE_CHECKING
 
 from clikit.api.args.raw_args import RawArgs
@@ -23,6 +25,8 @@ class HelpResolver(DefaultResolver):
         self, args, application
     ):  # type: (RawArgs, Application) -> ResolvedCommand
         if args.tokens and args.tokens[0] == self._help_command_name:
+            # Work on a copy: the raw arguments belong to the caller
+            args = copy.deepcopy(args)
             del args.tokens[0]
 
         return super(HelpResolver, self).resolve(args, application)
